@@ -17,7 +17,12 @@ def main():
         i = args.index('--tier')
         tier = args[i + 1]
         del args[i:i + 2]
-    ids = args or sorted(os.listdir(os.path.join(ROOT, 'seeded')))
+    sub = 'seeded'
+    if '--dir' in args:     # e.g. --dir harmless: behaviour-preserving changes, where a VIOLATION would be a false alarm
+        i = args.index('--dir')
+        sub = args[i + 1]
+        del args[i:i + 2]
+    ids = args or sorted(os.listdir(os.path.join(ROOT, sub)))
     st = subprocess.run(['git', '-C', REPO, 'status', '--porcelain', '--untracked-files=no'], capture_output=True, text=True).stdout.strip()
     if st:
         print('refusing: /repo has local changes:\n' + st)
@@ -26,7 +31,7 @@ def main():
     env['VERIF_EVIDENCE_DIR'] = os.path.join(ROOT, 'out', 'seed-evidence')
     summary = []
     for sid in ids:
-        d = os.path.join(ROOT, 'seeded', sid)
+        d = os.path.join(ROOT, sub, sid)
         pf = os.path.join(d, 'patch.diff')
         if not os.path.exists(pf):
             continue
@@ -46,7 +51,7 @@ def main():
         viol = [l for l in out.splitlines() if l.startswith('VIOLATION')]
         failed = [l.split(' ', 2)[2] for l in out.splitlines() if l.startswith('failed obligation ')]
         und = [l for l in out.splitlines() if l.startswith('UNDECIDED')]
-        verdict = {0: 'missed', 1: 'caught', 2: 'undecided'}.get(rc, 'error')
+        verdict = ({0: 'quiet', 1: 'FALSE-ALARM', 2: 'undecided'} if sub == 'harmless' else {0: 'missed', 1: 'caught', 2: 'undecided'}).get(rc, 'error')
         res = {'seed': sid, 'property': prop, 'tier': tier, 'check_rc': rc, 'verdict': verdict, 'failed_obligations': failed,
                'violation_lines': viol, 'undecided_lines': [u[:400] for u in und], 'wall_s': round(time.time() - t0, 1),
                'repo_head': subprocess.run(['git', '-C', REPO, 'rev-parse', '--short', 'HEAD'], capture_output=True, text=True).stdout.strip()}
